@@ -15,9 +15,16 @@ import time
 
 VERIF = os.path.dirname(os.path.dirname(os.path.abspath(__file__)))
 SPEC = os.path.join(VERIF, "spec")
-HARNESS = os.path.join(VERIF, "harness")
 WORK = os.path.join(VERIF, ".work")
-REPO = "/repo"
+# The registered checks always build from /repo's working tree.  For experiments with seeded changes (bin/seeded) the
+# same machinery can be pointed at a scratch worktree with VERIF_REPO=<dir>: the harness sources are copied into
+# <dir>/.verif_harness with the path dependency rewritten, so /repo itself is never touched.
+REPO = os.environ.get("VERIF_REPO", "/repo")
+if REPO == "/repo":
+    HARNESS = os.path.join(VERIF, "harness")
+else:
+    HARNESS = os.path.join(REPO, ".verif_harness")
+    WORK = os.path.join(REPO, ".verif_work")
 CHK = os.path.join(HARNESS, "target", "release", "chk")
 CLI_TARGET = os.path.join(HARNESS, "target-cli")
 CLI_BIN = os.path.join(CLI_TARGET, "debug", "chiritori")
@@ -110,6 +117,17 @@ def build_harness(need_cli=False):
     """(Re)build the harness against /repo's current working tree, hooks on."""
     t0 = time.time()
     env = {"CARGO_NET_OFFLINE": "true"}
+    if REPO != "/repo":
+        src = os.path.join(VERIF, "harness")
+        os.makedirs(os.path.join(HARNESS, "src"), exist_ok=True)
+        os.makedirs(os.path.join(HARNESS, ".cargo"), exist_ok=True)
+        for f in os.listdir(os.path.join(src, "src")):
+            shutil.copy(os.path.join(src, "src", f), os.path.join(HARNESS, "src", f))
+        shutil.copy(os.path.join(src, ".cargo", "config.toml"), os.path.join(HARNESS, ".cargo", "config.toml"))
+        shutil.copy(os.path.join(src, "Cargo.lock"), os.path.join(HARNESS, "Cargo.lock"))
+        toml = open(os.path.join(src, "Cargo.toml")).read().replace('"/repo/chiritori"', '"%s/chiritori"' % REPO)
+        with open(os.path.join(HARNESS, "Cargo.toml"), "w") as f:
+            f.write(toml)
     r = sh(["cargo", "build", "--release", "--offline"], cwd=HARNESS, env=env, timeout=900)
     if r.returncode != 0:
         raise ToolError("harness build failed:\n" + r.stdout[-3000:])
